@@ -16,7 +16,7 @@ namespace ratio
         new_fields(args);
     }
 
-    expr constructor::new_instance(context &ctx, const std::vector<expr> &exprs) noexcept
+    expr constructor::new_instance(context &ctx, const std::vector<expr> &exprs)
     {
         assert(args.size() == exprs.size());
 
